@@ -393,6 +393,10 @@ class HTTP(BaseComponent):
                 res.body = value.value
                 self.fire(response(res))
             elif value.errors:
+                # answered already by the exception handler
+                if req.handled:
+                    return
+                req.handled = True
                 error = value.value
                 _etype, evalue, _traceback = error
                 if isinstance(evalue, RedirectException):
@@ -410,6 +414,10 @@ class HTTP(BaseComponent):
                 value.event = e
                 value.notify = True
         elif isinstance(value, tuple):
+            # answered already by the exception handler
+            if req.handled:
+                return
+            req.handled = True
             _etype, evalue, _traceback = error = value
 
             if isinstance(evalue, RedirectException):
